@@ -86,6 +86,10 @@ def check_seq(case):
                 tag = "s%d" % op[1]
                 if tag in sessions:
                     sessions[tag].resumable = False
+            elif k == "invr":
+                # the session of the op[1]-th most recent store
+                if log:
+                    sessions[log[-1 - op[1] % len(log)][2]].resumable = False
             elif k == "get":
                 idn = op[1]
                 key = bytearray(b"id%d" % idn)
@@ -451,12 +455,25 @@ def check_conc_rsa(case):
     labels = ["conc-rsa"]
     import copy
     from tlslite.api import parsePEMKey
-    with open(sc.key_pem("rsa1024")) as f:
-        key = parsePEMKey(f.read(), private=True, implementations=["python"])
+    import tlslite.utils.python_rsakey as prk
+    from vlib.tsched import ThreadingShim
     DET.reseed("C18rsa", case.get("salt", 0))
     sched = Sched(("python_rsakey.py",), case["schedule"], max_points=40000)
-    lock = CoopLock(sched)
-    key._lock = lock
+    # a fresh key object per case, never used before the threads start;
+    # whatever lock the key creates (when it is built or at first use) is a
+    # lock of the scheduler
+    real = prk.threading
+    prk.threading = ThreadingShim(sched)
+    try:
+        return _conc_rsa(case, sched, labels)
+    finally:
+        prk.threading = real
+
+
+def _conc_rsa(case, sched, labels):
+    from tlslite.api import parsePEMKey
+    with open(sc.key_pem("rsa1024")) as f:
+        key = parsePEMKey(f.read(), private=True, implementations=["python"])
     n = key.n
 
     def expected(op):
@@ -479,7 +496,9 @@ def check_conc_rsa(case):
     for prog in programs:
         for op in prog:
             expected(op)
-    results, errors = sched.run([job(p) for p in programs], locks=[lock])
+    results, errors = sched.run([job(p) for p in programs])
+    if not sched._locks:
+        raise HarnessError("the key created no lock the scheduler knows")
     nt = sched.switches > 0
     labels.append("switches=%d" % min(sched.switches, 5))
     if sched.in_critical_preempt:
@@ -564,7 +583,7 @@ def check(case):
 # ---------------------------------------------------------------------------
 @st.composite
 def seq_case(draw):
-    me = draw(st.integers(2, 6))
+    me = draw(st.integers(1, 6))
     nid = draw(st.integers(1, 5))
     ops = draw(st.lists(st.one_of(
         st.tuples(st.just("set"), st.integers(0, nid), st.integers(0, 6)),
@@ -573,7 +592,8 @@ def seq_case(draw):
         st.tuples(st.just("get"), st.integers(0, nid)),
         st.tuples(st.just("adv"), st.sampled_from([0, 1, 4, 5, 6, 9, 10,
                                                    11])),
-        st.tuples(st.just("inv"), st.integers(0, 6))).map(list),
+        st.tuples(st.just("inv"), st.integers(0, 6)),
+        st.tuples(st.just("invr"), st.integers(0, 3))).map(list),
         min_size=2, max_size=25))
     return {"k": "seq", "maxEntries": me, "maxAge": 10, "ops": ops}
 
@@ -617,7 +637,7 @@ def strategy(tier):
 
 
 def budget(tier):
-    return 3000 if tier == "quick" else 60000
+    return 8000 if tier == "quick" else 60000
 
 
 def explicit(tier, seed):
@@ -649,6 +669,11 @@ def explicit(tier, seed):
     yield {"k": "stress", "target": "rsa", "threads": 6,
            "iters": 40 if tier == "quick" else 400}
     # regression-style sequential histories around duplicate ids
+    # the degenerate one-slot ring
+    yield {"k": "seq", "maxEntries": 1, "maxAge": 10,
+           "ops": [["set", 0, 0], ["get", 0], ["adv", 11], ["get", 0],
+                   ["set", 1, 1], ["set", 0, 0], ["adv", 11], ["get", 0],
+                   ["get", 1]]}
     yield {"k": "seq", "maxEntries": 4, "maxAge": 10,
            "ops": [["set", 0, 0], ["adv", 6], ["set", 0, 1], ["adv", 6],
                    ["get", 0], ["adv", 6], ["get", 0], ["get", 1]]}
